@@ -82,3 +82,39 @@ Qed.
 Lemma np_update_zero_limit np k same :
   no_progress_update np k 0 same = Some (if same then S np else 0%nat).
 Proof. unfold no_progress_update. destruct (0 <? np)%nat; reflexivity. Qed.
+
+(* A stop request observed at the check of iteration k ends the run there: the loop never proceeds past a requested stop,
+   and the status is Interrupted unless a higher-ranked condition holds at the same check. (C19) *)
+Section StopSkeleton.
+  Context {T : Type} `{Num T}.
+  Variable opts_tol : T.
+  Variable max_iter max_no_progress : nat.
+  Variable eps_at : nat -> T.
+  Variable time_exceeded_at stop_requested_at same_at : nat -> bool.
+
+  Lemma run_stops_at_request fuel k np :
+    stop_requested_at k = true ->
+    exists st, run opts_tol max_iter max_no_progress eps_at time_exceeded_at stop_requested_at same_at fuel k np = Some (k, st)
+               /\ st <> StBusy
+               /\ (st = StInterrupted \/ st = StConverged \/ st = StMaxTime \/ st = StMaxIter \/ st = StNotFinite \/ st = StNoProgress).
+  Proof.
+    intros Hs. destruct fuel; cbn [run]; rewrite Hs;
+    pose proof (stop_request_never_busy opts_tol (eps_at k) (time_exceeded_at k) k max_iter np max_no_progress) as Hnb;
+    destruct (stop_status_helpers opts_tol (eps_at k) (time_exceeded_at k) k max_iter np max_no_progress true) eqn:E;
+    try contradiction; try (eexists; split; [reflexivity|split; [discriminate|tauto]]).
+    all: exfalso; revert E; unfold stop_status_helpers; cbv zeta;
+      destruct (nleb _ _), (time_exceeded_at k), (Nat.eqb k max_iter), (negb (nfinite (eps_at k))), (Nat.ltb max_no_progress np); discriminate.
+  Qed.
+
+  (* Interrupted is only ever returned at an iteration whose check saw the request *)
+  Lemma run_interrupted_only_after_request fuel k np r :
+    run opts_tol max_iter max_no_progress eps_at time_exceeded_at stop_requested_at same_at fuel k np = Some (r, StInterrupted) ->
+    stop_requested_at r = true.
+  Proof.
+    revert k np. induction fuel as [|fuel IH]; intros k np; cbn [run];
+      destruct (stop_status_helpers _ _ _ _ _ _ _ _) eqn:E; intros Hr; inversion Hr; subst;
+      try (now apply interrupted_only_if_requested in E).
+    destruct (no_progress_update np k max_no_progress (same_at k)); [|discriminate].
+    eapply IH; eassumption.
+  Qed.
+End StopSkeleton.
